@@ -11,6 +11,7 @@ import (
 	gethtypes "github.com/ethereum/go-ethereum/core/types"
 
 	clienttypes "github.com/bianjieai/tibc-go/modules/tibc/core/02-client/types"
+	host "github.com/bianjieai/tibc-go/modules/tibc/core/24-host"
 	bsctypes "github.com/bianjieai/tibc-go/modules/tibc/light-clients/08-bsc/types"
 	tibctesting "github.com/bianjieai/tibc-go/modules/tibc/testing"
 )
@@ -533,6 +534,7 @@ func (g *c17Gen) directed() {
 	g.collisions(r)
 	g.oddInitialSets(r)
 	g.expired(r)
+	g.oddStores(r)
 	g.bricked(r)
 	g.epochZero(r)
 	g.genesisMismatch(r)
@@ -688,9 +690,9 @@ func (g *c17Gen) collisions(r *rand.Rand) {
 
 // initial validator lists with duplicates / over-long entries / different from the announced set
 func (g *c17Gen) oddInitialSets(r *rand.Rand) {
-	for v := 0; v < 5; v++ {
+	for v := 0; v < 6; v++ {
 		w := g.world(fmt.Sprintf("directed/initial-validators-%d", v), 6, false, r)
-		ks := w.pick(8)
+		ks := w.pick(12)
 		set := c17Addrs(ks[:5])
 		vals := set
 		announced := set
@@ -711,6 +713,11 @@ func (g *c17Gen) oddInitialSets(r *rand.Rand) {
 			announced = c17Addrs(ks[2:6])
 		case 4: // duplicates announced at an epoch block
 			w.exempt = true
+		case 5: // nine validators in force; three distinct ones announced nine times over
+			w.exempt = true
+			vals = c17Addrs(ks[:9])
+			set = vals
+			announced = vals
 		}
 		if w.create(w.genesis(6, 30000000, announced), vals, nil, c17Trusting) {
 			for i := 0; i < 14; i++ {
@@ -718,6 +725,9 @@ func (g *c17Gen) oddInitialSets(r *rand.Rand) {
 				ann := announced
 				if v == 4 && num%6 == 0 {
 					ann = append(append([][]byte{}, announced...), announced[0], announced[1], announced[2], announced[0])
+				}
+				if v == 5 && num%6 == 0 {
+					ann = [][]byte{vals[0], vals[1], vals[2], vals[0], vals[1], vals[2], vals[0], vals[1], vals[2]}
 				}
 				h, _ := w.next(common.Address{}, ann)
 				if w.exempt { // choose a sealer the real client accepts
@@ -753,6 +763,35 @@ func (g *c17Gen) expired(r *rand.Rand) {
 				h, _ := w.next(common.Address{}, set)
 				w.present("valid-at-time", "D", false, h)
 				w.present("valid-at-time", "K", false, h)
+			}
+		}
+		g.finish(w)
+	}
+}
+
+// client states that only a genesis import / upgrade can produce: no consensus state for the latest
+// height (Status Unknown, GetConsensusState fails); no pending-validators key at the switch block
+func (g *c17Gen) oddStores(r *rand.Rand) {
+	for v := 0; v < 2; v++ {
+		w := g.world(fmt.Sprintf("directed/odd-store-%d", v), 6, false, r)
+		w.exempt = true
+		set := c17Addrs(w.pick(3))
+		gh := w.genesis(6, 30000000, set)
+		if w.create(gh, set, nil, c17Trusting) {
+			store := w.keeper.ClientStore(w.ctx, w.name)
+			if v == 0 {
+				store.Delete(host.ConsensusStateKey(gh.Height))
+			} else {
+				store.Delete([]byte(bsctypes.PrefixPendingValidators))
+			}
+			w.pool, w.table = map[string]uint64{}, nil
+			w.init = w.stateTerm()
+			for i := 0; i < 4; i++ {
+				h, _ := w.next(common.Address{}, set)
+				w.present("valid-on-odd-store", "D", false, h)
+				if !w.present("valid-on-odd-store", "K", true, h) {
+					break
+				}
 			}
 		}
 		g.finish(w)
@@ -857,7 +896,7 @@ func (g *c17Gen) realInvalid(r *rand.Rand) {
 func (g *c17Gen) random() {
 	n := 16
 	if envTier() == "thorough" {
-		n = 700
+		n = 400
 	}
 	for i := 0; i < n; i++ {
 		r := newRand(1710 + int64(i))
